@@ -41,6 +41,17 @@ let run line =
             | Some (tbl, st) -> "OK " ^ show_strs tbl ^ " " ^ show_ns st | None -> "N")
   | "B" -> (match appendixB_decode (str_of f.(1)) with Some n -> "S " ^ string_of_int (int_of_n n) | None -> "N")
   | "A" -> (match appendixB_stream (str_of f.(1)) with Some l -> "S " ^ show_ns l | None -> "N")
+  | "Y" -> (* Y <dedup 0|1> <m> <k> <n:t,n:t,...|_> : marked-step bookkeeping of exec_proof *)
+           let steps = if f.(4) = "_" then [] else
+             List.map (fun x -> match String.split_on_char ':' x with
+                                | [n; t] -> (n_of_int (int_of_string n), n_of_int (int_of_string t))
+                                | _ -> failwith "step") (String.split_on_char ',' f.(4)) in
+           (match replay_marks_N (f.(1) = "1") (nat_of_int (int_of_string f.(2))) (nat_of_int (int_of_string f.(3))) steps None [] with
+            | None -> "N"
+            | Some tr -> "OK " ^ (if tr = [] then "_" else String.concat "," (List.map (function
+                  | EZ p -> "z" ^ string_of_int (int_of_n p)
+                  | ELabel t -> "l" ^ string_of_int (int_of_n t)
+                  | ERef (j, p) -> "r" ^ string_of_int (int_of_nat j) ^ ":" ^ string_of_int (int_of_n p)) tr)))
   | "T" -> show_str (proof_field (str_of f.(1)))
   | "W" -> let lo = int_of_string f.(1) and hi = int_of_string f.(2) in
            let r = ref [] in
